@@ -145,6 +145,9 @@ func (w *World) Step(pre *Snapshot, op Op) StepOut {
 	if op.Kind == "fault" {
 		return w.stepFault(pre, op)
 	}
+	if op.Kind == "chop_newline" {
+		return w.stepChop(pre, op)
+	}
 	out := w.stepMain(pre, op)
 	if w.Twin != nil && out.Post != nil {
 		out.Viol = append(out.Viol, w.stepTwin(op, &out)...)
@@ -984,7 +987,7 @@ func (w *World) stepTwin(op Op, main *StepOut) []Violation {
 	for _, id := range keysOfItems(main.Post, mapped) {
 		a, b := main.Post.Items[id], mapped.Items[id]
 		if a == nil || b == nil {
-			bad("after `%s`: item %s exists in only one of the compacted / uncompacted stores", strings.Join(cmd.Args, " "), id)
+			bad("after `%s`: item %s exists in only one of the two stores (this one and the compacted copy)", strings.Join(cmd.Args, " "), id)
 			continue
 		}
 		o := DiffOpts{RootA: w.Root, RootB: tw.Root}
@@ -1017,4 +1020,34 @@ func diffItemMasked(a, b *Item, o DiffOpts, touched bool) []string {
 	}
 	x, y := a.Clone(), b.Clone()
 	return diffItem(x, y, o)
+}
+
+// stepChop removes the final newline of the log - what a writer leaves that was cut off
+// one byte short of finishing. The last event is complete, readers honour it, so nothing
+// observable may change, now or through whatever command comes next (the next step's own
+// oracle judges that).
+func (w *World) stepChop(pre *Snapshot, op Op) StepOut {
+	out := StepOut{Op: op, Decision: "CHOP", Accepted: true, Post: pre}
+	path := LogPath(w.Root)
+	b, err := os.ReadFile(path)
+	if err != nil || len(b) == 0 || b[len(b)-1] != '\n' {
+		out.Labels = append(out.Labels, "chop.skipped")
+		return out
+	}
+	if err := os.WriteFile(path, b[:len(b)-1], 0o644); err != nil {
+		out.Labels = append(out.Labels, "chop.skipped")
+		return out
+	}
+	out.Labels = append(out.Labels, "log_left_without_final_newline")
+	post, err := TakeSnapshot(w.Root)
+	if err != nil {
+		out.Viol = append(out.Viol, Violation{"C03", "store unreadable when the final newline of the log is missing: " + err.Error()})
+		out.Post = nil
+		return out
+	}
+	for _, d := range DiffSnap(pre, post, DiffOpts{}) {
+		out.Viol = append(out.Viol, Violation{"C03", "a log whose last (complete) event lacks its newline reads differently: " + d})
+	}
+	out.Post = post
+	return out
 }
